@@ -221,3 +221,424 @@ Theorem route_step_separation_refuted_with_shared_values :
              /\ ~ (NoDup (all_ids w') /\ forall r, In r (all_ids w') -> r < s_next (ow_store w')).
 Proof. exact sep_preservation_refuted_shared_l. Qed.
 Print Assumptions route_step_separation_refuted_with_shared_values.
+
+From DV Require Import Proofs.C09PhylipInst Proofs.C09NexusStd Proofs.C09Main Proofs.C09Examples
+  Proofs.C09W10Src Proofs.C09W10Val Proofs.C09W10Rt Proofs.C09W10Spec.
+
+(* ---- wave 10: the round trip after a route, every format; sources AND receivers / results ---- *)
+
+(* MX ns w mi: matrix mi of world w as every writer walks it (namespace order over the dereferenced rows) *)
+Local Notation MX ns w mi := (iter_rows ns (deref (ow_store w) mi)).
+
+(* (a) SOURCES: source_roundtrip_after_route instantiated for the other formats.  A matrix that no step of the
+   route has as its receiver is written AFTER the route and read back with the content it had BEFORE it. *)
+
+(* PHYLIP, all four variants (strict / relaxed x sequential / interleaved), any delimiter / underscore setting *)
+Theorem source_roundtrip_after_route_phylip : forall (lower : text -> text) (a : alphabet) (wo : phy_wopts) (ro : phy_ropts)
+    (nchar : Z) (ns : list text) w ops w' i mi,
+  (NoDup (all_ids w) /\ forall r, In r (all_ids w) -> r < s_next (ow_store w)) -> o_run CopyValues w ops = Ok w' -> (forall o, In o ops -> receiver o <> Some i) ->
+  nth_error (ow_ms w) i = Some mi ->
+  r_strict ro = w_strict wo ->
+  MX ns w mi <> [] -> 1 <= nchar ->
+  forallb (phylip_label_ok wo ro) (map fst (MX ns w mi)) = true ->
+  labels_distinct lower (map fst (MX ns w mi)) = true ->
+  cells_ok a (MX ns w mi) = true ->
+  rectangular nchar (MX ns w mi) = true ->
+  exists mi', nth_error (ow_ms w') i = Some mi' /\
+    exists t, write_phylip (symbols_as_string a) wo (MX ns w' mi') = Ok t
+              /\ read_phylip lower Z (phylip_states a) ro t = Ok (MX ns w mi).
+Proof. exact source_phylip_after_route_l. Qed.
+Print Assumptions source_roundtrip_after_route_phylip.
+
+(* PHYLIP, continuous characters: the cells of the store name the values (dec); render / parse premises as in phylip_continuous_roundtrip *)
+Theorem source_roundtrip_after_route_phylip_continuous : forall (lower : text -> text) (V : Type) (render : V -> text)
+    (parse : text -> option V) (dec : Z -> V),
+  (forall v, parse (render v) = Some v) ->
+  (forall v, render v <> [] /\ nospace (render v)) ->
+  forall (wo : phy_wopts) (ro : phy_ropts) (nchar : Z) (ns : list text) w ops w' i mi,
+  (NoDup (all_ids w) /\ forall r, In r (all_ids w) -> r < s_next (ow_store w)) -> o_run CopyValues w ops = Ok w' -> (forall o, In o ops -> receiver o <> Some i) ->
+  nth_error (ow_ms w) i = Some mi ->
+  r_strict ro = w_strict wo ->
+  cont_rows dec (MX ns w mi) <> [] -> 1 <= nchar ->
+  forallb (phylip_label_ok wo ro) (map fst (cont_rows dec (MX ns w mi))) = true ->
+  labels_distinct lower (map fst (cont_rows dec (MX ns w mi))) = true ->
+  rectangular nchar (cont_rows dec (MX ns w mi)) = true ->
+  exists mi', nth_error (ow_ms w') i = Some mi' /\
+    exists t, write_phylip (cont_as_string V render) wo (cont_rows dec (MX ns w' mi')) = Ok t
+              /\ read_phylip lower V (phylip_cont V parse) ro t = Ok (cont_rows dec (MX ns w mi)).
+Proof. exact source_phylip_continuous_after_route_l. Qed.
+Print Assumptions source_roundtrip_after_route_phylip_continuous.
+
+(* NEXUS CHARACTERS / DATA block, token level, DNA / RNA / NUCLEOTIDE / PROTEIN *)
+Theorem source_roundtrip_after_route_nexus : forall (lower : text -> text) (dt : dtype) (simple cs : bool) (nchar : Z)
+    (ns : list text) w ops w' i mi,
+  (NoDup (all_ids w) /\ forall r, In r (all_ids w) -> r < s_next (ow_store w)) -> o_run CopyValues w ops = Ok w' -> (forall o, In o ops -> receiver o <> Some i) ->
+  nth_error (ow_ms w) i = Some mi ->
+  fixed_dtype dt = true ->
+  MX ns w mi <> [] -> 1 <= nchar ->
+  forallb label_token_ok (map fst (MX ns w mi)) = true ->
+  NoDup (map (keyf lower cs) (map fst (MX ns w mi))) ->
+  cells_ok (alphabet_of_dtype dt) (MX ns w mi) = true ->
+  rectangular nchar (MX ns w mi) = true ->
+  exists mi', nth_error (ow_ms w') i = Some mi' /\
+    exists toks st',
+      write_chars_block dt [alphabet_of_dtype dt] [] (mkNW simple None None) (MX ns w' mi') = Ok toks
+      /\ read_chars_block lower keep_ns
+           (if simple then nx_init [] None cs
+            else nx_init (map fst (MX ns w mi)) (Some (len (MX ns w mi))) cs) toks
+         = Ok (st', [mkBR dt (alphabet_of_dtype dt) (MX ns w mi) (map fst (MX ns w mi)) None None], [EOL; EOL; EOL]).
+Proof. exact source_nexus_after_route_l. Qed.
+Print Assumptions source_roundtrip_after_route_nexus.
+
+(* NEXUS, the data types written as DATATYPE=STANDARD SYMBOLS="..": same taxa, same states by symbol *)
+Theorem source_roundtrip_after_route_nexus_standard : forall (lower : text -> text) (dt : dtype) (a : alphabet)
+    (sym_order : list text) (simple cs : bool) (nchar : Z) (ns : list text) w ops w' i mi,
+  (NoDup (all_ids w) /\ forall r, In r (all_ids w) -> r < s_next (ow_store w)) -> o_run CopyValues w ops = Ok w' -> (forall o, In o ops -> receiver o <> Some i) ->
+  nth_error (ow_ms w) i = Some mi ->
+  std_dtype dt = true -> std_alphabet_ok a = true ->
+  same_set sym_order (fundamental_symbols [a]) = true -> texts_distinct sym_order = true ->
+  MX ns w mi <> [] -> 1 <= nchar ->
+  forallb label_token_ok (map fst (MX ns w mi)) = true ->
+  NoDup (map (keyf lower cs) (map fst (MX ns w mi))) ->
+  forallb (fun r => forallb (valid_cell a) (snd r)) (MX ns w mi) = true ->
+  rectangular nchar (MX ns w mi) = true ->
+  exists mi', nth_error (ow_ms w') i = Some mi' /\
+    exists toks st' b rows',
+      write_chars_block dt [a] sym_order (mkNW simple None None) (MX ns w' mi') = Ok toks
+      /\ read_chars_block lower keep_ns
+           (if simple then nx_init [] None cs
+            else nx_init (map fst (MX ns w mi)) (Some (len (MX ns w mi))) cs) toks
+         = Ok (st', [mkBR DtStandard b rows' (map fst (MX ns w mi)) None None], [EOL; EOL; EOL])
+      /\ map fst rows' = map fst (MX ns w mi)
+      /\ map (fun r => map (state_str b) (snd r)) rows'
+         = map (fun r => map (state_str a) (snd r)) (MX ns w mi).
+Proof. exact source_nexus_standard_after_route_l. Qed.
+Print Assumptions source_roundtrip_after_route_nexus_standard.
+
+(* every modelled format at once (Model/C09Convert.v: FASTA any wrapping, any PHYLIP variant, NEXUS DATA / CHARACTERS) *)
+Theorem source_roundtrip_after_route_any_format : forall (lower : text -> text) (dt : dtype) (nchar : Z) (f : format)
+    (ns : list text) w ops w' i mi,
+  (NoDup (all_ids w) /\ forall r, In r (all_ids w) -> r < s_next (ow_store w)) -> o_run CopyValues w ops = Ok w' -> (forall o, In o ops -> receiver o <> Some i) ->
+  nth_error (ow_ms w) i = Some mi ->
+  admissible lower dt nchar f (MX ns w mi) = true ->
+  exists mi', nth_error (ow_ms w') i = Some mi' /\ through lower dt f (MX ns w' mi') = Ok (MX ns w mi).
+Proof. exact source_through_after_route_l. Qed.
+Print Assumptions source_roundtrip_after_route_any_format.
+
+(* satisfiable: a three-step route (extend_sequences, concatenate, export_character_indices) over two delivered
+   matrices runs, matrix 0 is never a receiver, and its content meets the hypotheses of each theorem above *)
+
+(* the route part of the hypotheses *)
+Theorem source_route_example :
+  (NoDup (all_ids (o_init ex_ms)) /\ forall r, In r (all_ids (o_init ex_ms)) -> r < s_next (ow_store (o_init ex_ms)))
+  /\ (exists w', o_run CopyValues (o_init ex_ms) ex_route10 = Ok w' /\ length (ow_ms w') = 4%nat)
+  /\ (forall o, In o ex_route10 -> receiver o <> Some 0%nat)
+  /\ nth_error (ow_ms (o_init ex_ms)) 0 = Some ex_mi0
+  /\ MX ex_ns (o_init ex_ms) ex_mi0 = [([97], [0; 1]); ([98], [2; 3])].
+Proof. exact ex10_route. Qed.
+Print Assumptions source_route_example.
+
+(* PHYLIP strict+interleaved+underscore conversion and relaxed+two-blank delimiter *)
+Theorem source_route_phylip_hypotheses_example :
+  let m := MX ex_ns (o_init ex_ms) ex_mi0 in
+  r_strict (mkPR true true false true) = w_strict (mkPW true true) /\ m <> [] /\ 1 <= 2
+  /\ forallb (phylip_label_ok (mkPW true true) (mkPR true true false true)) (map fst m) = true
+  /\ forallb (phylip_label_ok (mkPW false false) (mkPR false false true false)) (map fst m) = true
+  /\ labels_distinct ascii_low (map fst m) = true /\ cells_ok alpha_dna m = true /\ rectangular 2 m = true.
+Proof. exact ex10_phylip_hyps. Qed.
+Print Assumptions source_route_phylip_hypotheses_example.
+
+(* PHYLIP continuous *)
+Theorem source_route_phylip_continuous_hypotheses_example :
+  let m := cont_rows (fun z => z) (MX ex_ns (o_init ex_ms) ex_mi0) in
+  m <> [] /\ forallb (phylip_label_ok (mkPW false false) (mkPR false true true false)) (map fst m) = true
+  /\ labels_distinct ascii_low (map fst m) = true /\ rectangular 2 m = true.
+Proof. exact ex10_cont_hyps. Qed.
+Print Assumptions source_route_phylip_continuous_hypotheses_example.
+
+(* NEXUS fixed data types *)
+Theorem source_route_nexus_hypotheses_example :
+  let m := MX ex_ns (o_init ex_ms) ex_mi0 in
+  fixed_dtype DtDna = true /\ m <> [] /\ 1 <= 2 /\ forallb label_token_ok (map fst m) = true
+  /\ NoDup (map (keyf ascii_low false) (map fst m)) /\ cells_ok (alphabet_of_dtype DtDna) m = true
+  /\ rectangular 2 m = true.
+Proof. exact ex10_nexus_hyps. Qed.
+Print Assumptions source_route_nexus_hypotheses_example.
+
+(* NEXUS STANDARD family *)
+Theorem source_route_nexus_standard_hypotheses_example :
+  let m := MX ex_ns (o_init ex_ms) ex_mi0 in
+  std_dtype DtStandard = true /\ std_alphabet_ok alpha_standard = true
+  /\ same_set ex_order (fundamental_symbols [alpha_standard]) = true /\ texts_distinct ex_order = true
+  /\ m <> [] /\ forallb label_token_ok (map fst m) = true
+  /\ NoDup (map (keyf ascii_low true) (map fst m))
+  /\ forallb (fun r => forallb (valid_cell alpha_standard) (snd r)) m = true /\ rectangular 2 m = true.
+Proof. exact ex10_standard_hyps. Qed.
+Print Assumptions source_route_nexus_standard_hypotheses_example.
+
+(* all formats *)
+Theorem source_route_any_format_hypotheses_example :
+  let m := MX ex_ns (o_init ex_ms) ex_mi0 in
+  admissible ascii_low DtDna 2 (FFasta true 70) m = true
+  /\ admissible ascii_low DtDna 2 (FPhylip (mkPW true false) (mkPR true true false false)) m = true
+  /\ admissible ascii_low DtDna 2 (FPhylip (mkPW false false) (mkPR false false false false)) m = true
+  /\ admissible ascii_low DtDna 2 (FNexus false) m = true /\ admissible ascii_low DtProtein 2 (FNexus true) m = true.
+Proof. exact ex10_through_hyps. Qed.
+Print Assumptions source_route_any_format_hypotheses_example.
+
+
+(* (b) the value-level semantics of routes (Proofs/C09W10Val.v): a matrix is its dictionary taxon -> sequence, no
+   store.  v_bin b rm arg: receiver.op(argument), one v_step per (taxon, sequence) of the argument; v_concat:
+   extend_matrix of a new empty matrix with every part; v_export: the selected columns of every row;
+   v_op / v_run: one step / a route on the list of all matrices.  The object-level route from a separated world
+   computes exactly it, for EVERY matrix of the world. *)
+
+(* one step *)
+Theorem route_step_computes_value_semantics : forall w o w', (NoDup (all_ids w) /\ forall r, In r (all_ids w) -> r < s_next (ow_store w)) -> o_step CopyValues w o = Ok w' -> v_op (contents w) o = Ok (contents w').
+Proof. exact o_step_value. Qed.
+Print Assumptions route_step_computes_value_semantics.
+
+(* whole routes *)
+Theorem route_computes_value_semantics : forall ops w w', (NoDup (all_ids w) /\ forall r, In r (all_ids w) -> r < s_next (ow_store w)) -> o_run CopyValues w ops = Ok w' -> v_run (contents w) ops = Ok (contents w').
+Proof. exact o_run_value. Qed.
+Print Assumptions route_computes_value_semantics.
+
+(* the world of delivered matrices holds exactly those matrices: routes from delivered matrices ms are v_run ms *)
+Theorem initial_world_contents : forall ms, contents (o_init ms) = ms.
+Proof. exact o_init_contents. Qed.
+Print Assumptions initial_world_contents.
+
+(* closed form of the merge operations, row by row (merge: Proofs/C09W10Spec.v): add keeps, replace / update overwrite, extend appends *)
+Theorem value_merge_row_rule : forall b arg rm l, NoDup (map fst arg) ->
+  rm_get l (v_bin b rm arg) = merge b (rm_get l rm) (rm_get l arg).
+Proof. exact rm_get_v_bin. Qed.
+Print Assumptions value_merge_row_rule.
+
+(* the same on the walked matrix *)
+Theorem value_merge_walked_matrix : forall ns b rm arg, NoDup (map fst arg) ->
+  iter_rows ns (v_bin b rm arg)
+  = flat_map (fun l => match merge b (rm_get l rm) (rm_get l arg) with Some c => [(l, c)] | None => [] end) ns.
+Proof. exact iter_rows_v_bin. Qed.
+Print Assumptions value_merge_walked_matrix.
+
+(* concatenate: a taxon has a row iff some part has one; it is the parts' rows for that taxon joined in order *)
+Theorem value_concatenate_walked_matrix : forall ns parts, Forall (fun p => NoDup (map fst p)) parts ->
+  iter_rows ns (v_concat parts)
+  = flat_map (fun l => if existsb (fun p => has_row p l) parts then [(l, concat (map (row_of l) parts))] else []) ns.
+Proof. exact iter_rows_v_concat. Qed.
+Print Assumptions value_concatenate_walked_matrix.
+
+(* export_character_indices: same taxa, every row cut down to the selected columns *)
+Theorem value_export_walked_matrix : forall ns idx rm,
+  iter_rows ns (v_export idx rm) = map (fun r => (fst r, select_cols idx 0 (snd r))) (iter_rows ns rm).
+Proof. exact iter_rows_v_export. Qed.
+Print Assumptions value_export_walked_matrix.
+
+(* dictionaries stay dictionaries along a route (the closed forms above apply at every step) *)
+Theorem value_route_keeps_keys_distinct : forall ops cs cs', Forall (fun p => NoDup (map fst p)) cs -> v_run cs ops = Ok cs' ->
+  Forall (fun p => NoDup (map fst p)) cs'.
+Proof. exact v_run_keys. Qed.
+Print Assumptions value_route_keeps_keys_distinct.
+
+
+(* (c) RECEIVERS and RESULTS: after a route from a separated world, matrix i of the final world - a receiver, a
+   concatenate result, an export result or a source alike - is written and read back with the content c the
+   value-level semantics gives it (nth_error cs i = Some c, cs = the value-level run), in every format. *)
+
+(* FASTA *)
+Theorem matrix_roundtrip_after_route_fasta : forall (lower : text -> text) (a : alphabet) (wrap : bool) (width : Z)
+    (ns : list text) w ops w' cs i c,
+  (NoDup (all_ids w) /\ forall r, In r (all_ids w) -> r < s_next (ow_store w)) -> o_run CopyValues w ops = Ok w' -> v_run (contents w) ops = Ok cs -> nth_error cs i = Some c ->
+  forallb fasta_label_ok (map fst (iter_rows ns c)) = true ->
+  labels_distinct lower (map fst (iter_rows ns c)) = true ->
+  cells_ok a (iter_rows ns c) = true ->
+  rows_nonempty (iter_rows ns c) = true ->
+  exists mi', nth_error (ow_ms w') i = Some mi' /\
+    read_fasta lower a (write_fasta a wrap width (MX ns w' mi')) = Ok (iter_rows ns c).
+Proof. exact result_fasta_after_route_l. Qed.
+Print Assumptions matrix_roundtrip_after_route_fasta.
+
+(* PHYLIP, all four variants *)
+Theorem matrix_roundtrip_after_route_phylip : forall (lower : text -> text) (a : alphabet) (wo : phy_wopts) (ro : phy_ropts)
+    (nchar : Z) (ns : list text) w ops w' cs i c,
+  (NoDup (all_ids w) /\ forall r, In r (all_ids w) -> r < s_next (ow_store w)) -> o_run CopyValues w ops = Ok w' -> v_run (contents w) ops = Ok cs -> nth_error cs i = Some c ->
+  r_strict ro = w_strict wo ->
+  iter_rows ns c <> [] -> 1 <= nchar ->
+  forallb (phylip_label_ok wo ro) (map fst (iter_rows ns c)) = true ->
+  labels_distinct lower (map fst (iter_rows ns c)) = true ->
+  cells_ok a (iter_rows ns c) = true ->
+  rectangular nchar (iter_rows ns c) = true ->
+  exists mi', nth_error (ow_ms w') i = Some mi' /\
+    exists t, write_phylip (symbols_as_string a) wo (MX ns w' mi') = Ok t
+              /\ read_phylip lower Z (phylip_states a) ro t = Ok (iter_rows ns c).
+Proof. exact result_phylip_after_route_l. Qed.
+Print Assumptions matrix_roundtrip_after_route_phylip.
+
+(* PHYLIP continuous *)
+Theorem matrix_roundtrip_after_route_phylip_continuous : forall (lower : text -> text) (V : Type) (render : V -> text)
+    (parse : text -> option V) (dec : Z -> V),
+  (forall v, parse (render v) = Some v) ->
+  (forall v, render v <> [] /\ nospace (render v)) ->
+  forall (wo : phy_wopts) (ro : phy_ropts) (nchar : Z) (ns : list text) w ops w' cs i c,
+  (NoDup (all_ids w) /\ forall r, In r (all_ids w) -> r < s_next (ow_store w)) -> o_run CopyValues w ops = Ok w' -> v_run (contents w) ops = Ok cs -> nth_error cs i = Some c ->
+  r_strict ro = w_strict wo ->
+  cont_rows dec (iter_rows ns c) <> [] -> 1 <= nchar ->
+  forallb (phylip_label_ok wo ro) (map fst (cont_rows dec (iter_rows ns c))) = true ->
+  labels_distinct lower (map fst (cont_rows dec (iter_rows ns c))) = true ->
+  rectangular nchar (cont_rows dec (iter_rows ns c)) = true ->
+  exists mi', nth_error (ow_ms w') i = Some mi' /\
+    exists t, write_phylip (cont_as_string V render) wo (cont_rows dec (MX ns w' mi')) = Ok t
+              /\ read_phylip lower V (phylip_cont V parse) ro t = Ok (cont_rows dec (iter_rows ns c)).
+Proof. exact result_phylip_continuous_after_route_l. Qed.
+Print Assumptions matrix_roundtrip_after_route_phylip_continuous.
+
+(* NEXUS fixed data types *)
+Theorem matrix_roundtrip_after_route_nexus : forall (lower : text -> text) (dt : dtype) (simple cs0 : bool) (nchar : Z)
+    (ns : list text) w ops w' cs i c,
+  (NoDup (all_ids w) /\ forall r, In r (all_ids w) -> r < s_next (ow_store w)) -> o_run CopyValues w ops = Ok w' -> v_run (contents w) ops = Ok cs -> nth_error cs i = Some c ->
+  fixed_dtype dt = true ->
+  iter_rows ns c <> [] -> 1 <= nchar ->
+  forallb label_token_ok (map fst (iter_rows ns c)) = true ->
+  NoDup (map (keyf lower cs0) (map fst (iter_rows ns c))) ->
+  cells_ok (alphabet_of_dtype dt) (iter_rows ns c) = true ->
+  rectangular nchar (iter_rows ns c) = true ->
+  exists mi', nth_error (ow_ms w') i = Some mi' /\
+    exists toks st',
+      write_chars_block dt [alphabet_of_dtype dt] [] (mkNW simple None None) (MX ns w' mi') = Ok toks
+      /\ read_chars_block lower keep_ns
+           (if simple then nx_init [] None cs0
+            else nx_init (map fst (iter_rows ns c)) (Some (len (iter_rows ns c))) cs0) toks
+         = Ok (st', [mkBR dt (alphabet_of_dtype dt) (iter_rows ns c) (map fst (iter_rows ns c)) None None], [EOL; EOL; EOL]).
+Proof. exact result_nexus_after_route_l. Qed.
+Print Assumptions matrix_roundtrip_after_route_nexus.
+
+(* NEXUS STANDARD family *)
+Theorem matrix_roundtrip_after_route_nexus_standard : forall (lower : text -> text) (dt : dtype) (a : alphabet)
+    (sym_order : list text) (simple cs0 : bool) (nchar : Z) (ns : list text) w ops w' cs i c,
+  (NoDup (all_ids w) /\ forall r, In r (all_ids w) -> r < s_next (ow_store w)) -> o_run CopyValues w ops = Ok w' -> v_run (contents w) ops = Ok cs -> nth_error cs i = Some c ->
+  std_dtype dt = true -> std_alphabet_ok a = true ->
+  same_set sym_order (fundamental_symbols [a]) = true -> texts_distinct sym_order = true ->
+  iter_rows ns c <> [] -> 1 <= nchar ->
+  forallb label_token_ok (map fst (iter_rows ns c)) = true ->
+  NoDup (map (keyf lower cs0) (map fst (iter_rows ns c))) ->
+  forallb (fun r => forallb (valid_cell a) (snd r)) (iter_rows ns c) = true ->
+  rectangular nchar (iter_rows ns c) = true ->
+  exists mi', nth_error (ow_ms w') i = Some mi' /\
+    exists toks st' b rows',
+      write_chars_block dt [a] sym_order (mkNW simple None None) (MX ns w' mi') = Ok toks
+      /\ read_chars_block lower keep_ns
+           (if simple then nx_init [] None cs0
+            else nx_init (map fst (iter_rows ns c)) (Some (len (iter_rows ns c))) cs0) toks
+         = Ok (st', [mkBR DtStandard b rows' (map fst (iter_rows ns c)) None None], [EOL; EOL; EOL])
+      /\ map fst rows' = map fst (iter_rows ns c)
+      /\ map (fun r => map (state_str b) (snd r)) rows'
+         = map (fun r => map (state_str a) (snd r)) (iter_rows ns c).
+Proof. exact result_nexus_standard_after_route_l. Qed.
+Print Assumptions matrix_roundtrip_after_route_nexus_standard.
+
+(* every modelled format at once *)
+Theorem matrix_roundtrip_after_route_any_format : forall (lower : text -> text) (dt : dtype) (nchar : Z) (f : format)
+    (ns : list text) w ops w' cs i c,
+  (NoDup (all_ids w) /\ forall r, In r (all_ids w) -> r < s_next (ow_store w)) -> o_run CopyValues w ops = Ok w' -> v_run (contents w) ops = Ok cs -> nth_error cs i = Some c ->
+  admissible lower dt nchar f (iter_rows ns c) = true ->
+  exists mi', nth_error (ow_ms w') i = Some mi' /\ through lower dt f (MX ns w' mi') = Ok (iter_rows ns c).
+Proof. exact result_through_after_route_l. Qed.
+Print Assumptions matrix_roundtrip_after_route_any_format.
+
+(* satisfiable: the same route; matrix 1 is the receiver of extend_sequences, matrix 2 the concatenate result,
+   matrix 3 the export result; their value-level contents meet the hypotheses of each theorem above *)
+
+(* the route part: the value-level run and the three contents *)
+Theorem matrix_route_example :
+  (NoDup (all_ids (o_init ex_ms)) /\ forall r, In r (all_ids (o_init ex_ms)) -> r < s_next (ow_store (o_init ex_ms)))
+  /\ (exists w', o_run CopyValues (o_init ex_ms) ex_route10 = Ok w')
+  /\ v_run (contents (o_init ex_ms)) ex_route10 = Ok ex10_cs
+  /\ nth_error ex10_cs 1 = Some [([98], [1; 2; 3]); ([97], [0; 0; 1])]
+  /\ nth_error ex10_cs 2 = Some [([97], [0; 1; 0; 0; 1]); ([98], [2; 3; 1; 2; 3])]
+  /\ nth_error ex10_cs 3 = Some [([97], [0; 0]); ([98], [2; 1])]
+  /\ iter_rows ex_ns [([98], [1; 2; 3]); ([97], [0; 0; 1])] = [([97], [0; 0; 1]); ([98], [1; 2; 3])].
+Proof. exact ex10_value_route. Qed.
+Print Assumptions matrix_route_example.
+
+(* FASTA, concatenate result *)
+Theorem matrix_route_fasta_hypotheses_example :
+  let m := iter_rows ex_ns ex10_concat in
+  forallb fasta_label_ok (map fst m) = true /\ labels_distinct ascii_low (map fst m) = true
+  /\ cells_ok alpha_dna m = true /\ rows_nonempty m = true.
+Proof. exact ex10r_fasta_hyps. Qed.
+Print Assumptions matrix_route_fasta_hypotheses_example.
+
+(* PHYLIP, concatenate result *)
+Theorem matrix_route_phylip_hypotheses_example :
+  let m := iter_rows ex_ns ex10_concat in
+  r_strict (mkPR true true false true) = w_strict (mkPW true true) /\ m <> [] /\ 1 <= 5
+  /\ forallb (phylip_label_ok (mkPW true true) (mkPR true true false true)) (map fst m) = true
+  /\ forallb (phylip_label_ok (mkPW false false) (mkPR false false true false)) (map fst m) = true
+  /\ labels_distinct ascii_low (map fst m) = true /\ cells_ok alpha_dna m = true /\ rectangular 5 m = true.
+Proof. exact ex10r_phylip_hyps. Qed.
+Print Assumptions matrix_route_phylip_hypotheses_example.
+
+(* PHYLIP continuous, concatenate result *)
+Theorem matrix_route_phylip_continuous_hypotheses_example :
+  let m := cont_rows (fun z => z) (iter_rows ex_ns ex10_concat) in
+  m <> [] /\ forallb (phylip_label_ok (mkPW false false) (mkPR false true true false)) (map fst m) = true
+  /\ labels_distinct ascii_low (map fst m) = true /\ rectangular 5 m = true.
+Proof. exact ex10r_cont_hyps. Qed.
+Print Assumptions matrix_route_phylip_continuous_hypotheses_example.
+
+(* NEXUS, concatenate result *)
+Theorem matrix_route_nexus_hypotheses_example :
+  let m := iter_rows ex_ns ex10_concat in
+  fixed_dtype DtDna = true /\ m <> [] /\ 1 <= 5 /\ forallb label_token_ok (map fst m) = true
+  /\ NoDup (map (keyf ascii_low false) (map fst m)) /\ cells_ok (alphabet_of_dtype DtDna) m = true
+  /\ rectangular 5 m = true.
+Proof. exact ex10r_nexus_hyps. Qed.
+Print Assumptions matrix_route_nexus_hypotheses_example.
+
+(* NEXUS STANDARD family, concatenate result *)
+Theorem matrix_route_nexus_standard_hypotheses_example :
+  let m := iter_rows ex_ns ex10_concat in
+  std_dtype DtStandard = true /\ std_alphabet_ok alpha_standard = true
+  /\ same_set ex_order (fundamental_symbols [alpha_standard]) = true /\ texts_distinct ex_order = true
+  /\ m <> [] /\ forallb label_token_ok (map fst m) = true
+  /\ NoDup (map (keyf ascii_low true) (map fst m))
+  /\ forallb (fun r => forallb (valid_cell alpha_standard) (snd r)) m = true /\ rectangular 5 m = true.
+Proof. exact ex10r_standard_hyps. Qed.
+Print Assumptions matrix_route_nexus_standard_hypotheses_example.
+
+(* all formats: concatenate result, receiver, export result *)
+Theorem matrix_route_any_format_hypotheses_example :
+  admissible ascii_low DtDna 5 (FFasta true 70) (iter_rows ex_ns ex10_concat) = true
+  /\ admissible ascii_low DtDna 5 (FPhylip (mkPW true false) (mkPR true true false false)) (iter_rows ex_ns ex10_concat) = true
+  /\ admissible ascii_low DtDna 5 (FNexus false) (iter_rows ex_ns ex10_concat) = true
+  /\ admissible ascii_low DtDna 3 (FPhylip (mkPW false false) (mkPR false false false false))
+       (iter_rows ex_ns [([98], [1; 2; 3]); ([97], [0; 0; 1])]) = true
+  /\ admissible ascii_low DtDna 3 (FNexus true) (iter_rows ex_ns [([98], [1; 2; 3]); ([97], [0; 0; 1])]) = true
+  /\ admissible ascii_low DtDna 2 (FFasta false 0) (iter_rows ex_ns [([97], [0; 0]); ([98], [2; 1])]) = true
+  /\ admissible ascii_low DtProtein 2 (FNexus true) (iter_rows ex_ns [([97], [0; 0]); ([98], [2; 1])]) = true.
+Proof. exact ex10r_through_hyps. Qed.
+Print Assumptions matrix_route_any_format_hypotheses_example.
+
+From DV Require Import Proofs.C09W10Tot.
+
+(* the value-level run and the object-level run succeed together: whenever the value-level route runs, the
+   object-level route from a separated world runs too and ends in a world holding exactly its matrices (so the
+   hypothesis `o_run .. = Ok w'` of the theorems under (c) follows from the value-level run) *)
+Theorem route_runs_when_value_semantics_runs : forall (ops : list oop) (w : oworld) (cs : list rowmap),
+  (NoDup (all_ids w) /\ forall r, In r (all_ids w) -> r < s_next (ow_store w)) ->
+  v_run (contents w) ops = Ok cs ->
+  exists w', o_run CopyValues w ops = Ok w' /\ contents w' = cs.
+Proof. exact o_run_value_total. Qed.
+Print Assumptions route_runs_when_value_semantics_runs.
+
+(* false if CharacterDataSequence(other) took other's value list itself: after concatenate([m0; m1]) the SOURCE
+   m0 holds m1's characters too, the value-level semantics leaves it alone *)
+Theorem route_value_semantics_refuted_with_shared_values :
+  exists w' cs, (NoDup (all_ids (o_init ex_ms)) /\ forall r, In r (all_ids (o_init ex_ms)) -> r < s_next (ow_store (o_init ex_ms)))
+    /\ o_run ShareValues (o_init ex_ms) [OConcat [0%nat; 1%nat]] = Ok w'
+    /\ v_run (contents (o_init ex_ms)) [OConcat [0%nat; 1%nat]] = Ok cs
+    /\ nth 0 cs [] = [([97], [0; 1]); ([98], [2; 3])]
+    /\ nth 0 (contents w') [] = [([97], [0; 1; 0]); ([98], [2; 3; 1])]
+    /\ contents w' <> cs.
+Proof. exact value_semantics_refuted_shared_l. Qed.
+Print Assumptions route_value_semantics_refuted_with_shared_values.
